@@ -41,6 +41,16 @@ def relay_universe():
     ]
 
 
+WEIRD_SYMTAB = {"i5": 5, "bT": True, "nN": None, "f15": 1.5, "lst": ["x", 1, None], "neg": -7, "big": 2 ** 53, "obj": {"k": "v"}, "e0": ""}
+
+
+def weird_events():
+    return [
+        E("w1", "A", 1, 32, [["t", "a"], ["n", "i5", "bT", "nN", "f15"], ["q", "lst", "obj"], ["e0"], ["t", "e0", "neg", "big"]]),
+        E("w2", "B", 7, 33, [["t", "a"], ["r", "f15", "i5"]]),
+    ]
+
+
 def _wrong_id(ev, uni):
     ev = dict(ev)
     ev["id"] = "%064x" % (int(ev["id"], 16) ^ 0xFFFF)
@@ -92,38 +102,44 @@ def _worker(payload):
 
 
 def run(prop, tier, seed, backends=BACKENDS, only_universe=None):
-    out = Outcome(prop, tier, seed, "model_checking")
+    out = Outcome(prop, tier, seed, "exploration" if prop == "C04" else "model_checking")
     rnd = random.Random(seed)
     design = tlc.DesignCheck([("MC_Relay", "MC_Relay_%s%s.cfg" % (b, "_quick" if tier == "quick" else ""), "Relay/" + b) for b in backends],
                              workers=3 if tier == "quick" else 7, timeout=3000)
-    uni = Universe(relay_universe())
+    variants = [(Universe(relay_universe()), "hostile" if prop == "C04" else "plain")]
+    if prop == "C04":
+        # contents, tag values and tag items that pass admission but stress the hand-written serialiser and both encodings
+        for pal in ("quotes", "nul", "unicode"):
+            variants.append((Universe(relay_universe() + weird_events(), palette=pal, symtab=WEIRD_SYMTAB), "hostile"))
     num = {"quick": 40, "thorough": 400}[tier]
     cap = {"quick": {"sql": 160, "lmdb": 400}, "thorough": {"sql": 3000, "lmdb": 8000}}[tier]
     depth = {"quick": 14, "thorough": 20}[tier]
     own = OWN[prop]
     sid_map_name = "hostile" if prop == "C04" else "plain"
-    scheds = {}
-    for backend in backends:
-        sc, gstats = relaytrace.gen_relay_schedules(uni, NCONNS, SIDS, FILTER_LISTS, SUBLIMIT, backend, depth, num, seed)
-        out.add_model(gstats)
-        sc = sorted(sc, key=repr)
-        rnd.shuffle(sc)
-        scheds[backend] = sc[:cap[backend]]
-    payloads = []
-    for backend in backends:
-        sc = scheds[backend]
-        for b in range(0, len(sc), 10):
-            payloads.append(("uni", backend, sc[b:b + 10], sid_map_name))
-    results = pool.map_in_workers("harness.checks.relayfam", "_worker", payloads, config={"subscription_limit": SUBLIMIT},
-                                  shared={"uni": uni})
-    per_backend = {b: [] for b in backends}
-    for (key, backend, sc, _), res in zip(payloads, results):
-        for sched, (tr, log, info, errs) in zip(sc, res):
-            per_backend[backend].append((sched, tr, log, info, errs))
     distinct = set()
     samples = []
     other = {}
-    for backend in backends:
+    design_unused = None
+    for vn, (uni, sid_map_name) in enumerate(variants):
+      scheds = {}
+      for backend in backends:
+        sc, gstats = relaytrace.gen_relay_schedules(uni, NCONNS, SIDS, FILTER_LISTS, SUBLIMIT, backend, depth, num, seed + vn)
+        out.add_model(gstats)
+        sc = sorted(sc, key=repr)
+        rnd.shuffle(sc)
+        scheds[backend] = sc[:cap[backend] // (1 if len(variants) == 1 else 2)]
+      payloads = []
+      for backend in backends:
+        sc = scheds[backend]
+        for b in range(0, len(sc), 10):
+            payloads.append(("uni", backend, sc[b:b + 10], sid_map_name))
+      results = pool.map_in_workers("harness.checks.relayfam", "_worker", payloads, config={"subscription_limit": SUBLIMIT},
+                                    shared={"uni": uni})
+      per_backend = {b: [] for b in backends}
+      for (key, backend, sc, _), res in zip(payloads, results):
+        for sched, (tr, log, info, errs) in zip(sc, res):
+            per_backend[backend].append((sched, tr, log, info, errs))
+      for backend in backends:
         items = per_backend[backend]
         verdicts, vstats = relaytrace.validate_relay_traces(uni, NCONNS, SIDS, SUBLIMIT, backend, [it[1] for it in items])
         out.add_model(vstats)
